@@ -67,6 +67,10 @@ package crypto
 //@   ensures wire: stream(out) == enc_pre(old(seq(s.encryptKey)), old(s.encryptCount), old(stream(r)), (len(old(stream(r))) + 1023) / 1024)
 //@   ensures count: s.encryptCount == old(s.encryptCount) + (len(old(stream(r))) + 1023) / 1024
 //@   ensures wireFront: stream(out) == enc_suf(old(seq(s.encryptKey)), old(s.encryptCount), old(stream(r)), 0, (len(old(stream(r))) + 1023) / 1024)
+// two lemmas at the first Write of an iteration (proved there, used by the invariants): the three pieces about to be written
+// are the specification's frame for this chunk, and the rest of the encoding starts with that frame
+//@   assert fr before Write#1: cat(seq(bLength), cat(seq(encrypted), seq(mac))) == frame(old(seq(s.encryptKey)), old(s.encryptCount) + loopidx(0), seq(p.value))
+//@   assert unfold before Write#1: enc_suf(old(seq(s.encryptKey)), old(s.encryptCount), old(stream(r)), loopidx(0), len(packets)) == cat(frame(old(seq(s.encryptKey)), old(s.encryptCount) + loopidx(0), seq(p.value)), enc_suf(old(seq(s.encryptKey)), old(s.encryptCount), old(stream(r)), loopidx(0) + 1, len(packets)))
 //@   loop 0
 //@     invariant front: cat(stream(addr(buf)), enc_suf(old(seq(s.encryptKey)), old(s.encryptCount), old(stream(r)), loopidx, len(packets))) == enc_suf(old(seq(s.encryptKey)), old(s.encryptCount), old(stream(r)), 0, len(packets)) && suf_mark(old(seq(s.encryptKey)), old(s.encryptCount), old(stream(r)), loopidx, len(packets))
 //@     invariant idx: 0 <= loopidx && loopidx <= len(packets) && len(packets) == (len(old(stream(r))) + 1023) / 1024
